@@ -53,3 +53,12 @@ pub fn spin(d: &mut Decoder<'_>) -> Result<u64, Error> {
     }
     Ok(n)
 }
+
+/// F-RECURSION: stack depth driven by the input (one frame per tag head).
+pub fn recurse_on_tags(d: &mut Decoder<'_>) -> Result<u64, Error> {
+    if d.datatype()? == minicbor::data::Type::Tag {
+        d.tag()?;
+        return recurse_on_tags(d)
+    }
+    d.u64()
+}
